@@ -672,6 +672,20 @@ func FuzzRecover(f *testing.F) {
 		b, _ := hex.DecodeString(s)
 		f.Add(byte(1), b)
 	}
+	// valid transactions of all three wire forms, signed by the reference signer (chain ids match `chains` below)
+	one, big1, to := "1", "340282366920938463463374607431768211456", "00112233445566778899aabbccddeeff00112233"
+	data := "a9059cbb" + "00"
+	for i, m := range []string{txmodel.ModeLegacy, txmodel.ModeEIP155, txmodel.ModeEIP1559} {
+		for sel, chain := range []int64{0, 1, 1337, 111, 1 << 31} {
+			tx := txmodel.Tx{Nonce: &one, GasPrice: &big1, Tip: &one, FeeCap: &big1, Gas: &one, Value: &one, To: &to, Data: &data}
+			if sel%2 == 1 {
+				tx.To = nil
+			}
+			if w, _, _, _, ok := tx.RefSign(m, chain, big.NewInt(int64(1000+i)), big.NewInt(int64(77+sel))); ok {
+				f.Add(byte(sel), w)
+			}
+		}
+	}
 	rec := evid.Start("C10", rule)
 	k := evid.NewKind(rec, "raw", judge)
 	chains := []int64{0, 1, 1337, 111, 1 << 31}
